@@ -117,15 +117,15 @@ Definition bare_ok (name : list byte) : bool :=      (* a name printed without |
   | [] => false
   | b :: r => token_first b && forallb token_byte r
   end && negb (is_t name) && negb (is_nil_tok name) && negb (bytes_eqb name [46%N]).
-(* inl: the symbol sits inside a list that createTree renders ( *print-pretty* t).
-   A name that looks like a number is no longer a guard matter: Symbol.needPipes matches the name against the
-   reader's number patterns and puts such names between bars (repo_fixes C03-3). *)
-Definition sym_ok (c : pcfg) (inl : bool) (name : list byte) : bool :=
+(* A name that looks like a number is no longer a guard matter: Symbol.needPipes matches the name against the
+   reader's number patterns and puts such names between bars (repo_fixes C03-3); the pretty printer writes
+   symbols inside lists as it writes them elsewhere (repo_fixes C03-4). *)
+Definition sym_ok (c : pcfg) (name : list byte) : bool :=
   forallb (fun b => (b <? 128)%N) name &&
   match name with
-  | [] => negb inl
+  | [] => true
   | 58%N :: _ => negb (existsb need_pipe name) && bare_ok name
-  | _ => if need_pipes name then forallb pipe_ok_byte name && negb inl else bare_ok name
+  | _ => if need_pipes name then forallb pipe_ok_byte name else bare_ok name
   end.
 
 Definition float_ok (k : fkind) (txt : list byte) : bool :=
@@ -133,7 +133,7 @@ Definition float_ok (k : fkind) (txt : list byte) : bool :=
   match txt with [] => false | b :: r => token_first b && forallb token_byte r end &&
   negb (is_t txt) && negb (is_nil_tok txt).
 
-Definition atom_ok (c : pcfg) (inl : bool) (x : obj) : bool :=
+Definition atom_ok (c : pcfg) (x : obj) : bool :=
   match x with
   | ONil | OTrue => true
   | OInt b z => Bool.eqb b (negb (in64 z))
@@ -141,21 +141,20 @@ Definition atom_ok (c : pcfg) (inl : bool) (x : obj) : bool :=
   | OFlt k txt => float_ok k txt
   | OStr bs => if p_readably c then utf8_ok bs else forallb plain_string_byte bs
   | OChr r => char_readable r
-  | OSym s => sym_ok c inl s
+  | OSym s => sym_ok c s
   | _ => false
   end.
 
-(* dom c inl x: x is an object of the property (well formed) that the unchanged printer and reader
-   carry round; inl is true below a list when *print-pretty* is on *)
-Fixpoint dom (c : pcfg) (inl : bool) (x : obj) : bool :=
-  let fix all (l : list obj) : bool := match l with [] => true | e :: l' => dom c (p_pretty c) e && all l' end in
+(* dom c x: x is an object of the property (well formed) that the printer and the reader carry round *)
+Fixpoint dom (c : pcfg) (x : obj) : bool :=
+  let fix all (l : list obj) : bool := match l with [] => true | e :: l' => dom c e && all l' end in
   match x with
   | OList xs => nonempty xs && all xs
-  | ODot xs tl => nonempty xs && all xs && is_atom tl && atom_ok c (p_pretty c) tl &&
+  | ODot xs tl => nonempty xs && all xs && is_atom tl && atom_ok c tl &&
                   match tl with ONil => false | _ => true end
   | OVec xs => p_array c && all xs
   | OArr rank rows => p_array c && (p_base c =? 10)%N && negb (p_radix c) && (2 <=? rank)%nat && (rank <=? 1024)%nat &&
                       arr_dims_ok rank rows && arr_check (arr_dims rank rows) rows && all rows
-  | _ => atom_ok c inl x
+  | _ => atom_ok c x
   end.
-Definition in_domain (c : pcfg) (x : obj) : bool := readable_cfg c && dom c false x.
+Definition in_domain (c : pcfg) (x : obj) : bool := readable_cfg c && dom c x.
